@@ -80,7 +80,7 @@ func (p *evmprof) Configure(r *e.RNG, tier string) e.Config {
 	c.Coinomics = r.Chance(0.6)
 	// jail_bias: a validator misses most blocks and is jailed early, so that grants
 	// made afterwards do not name it; unlimited grants are frequent
-	if c.NVals >= 2 && r.Chance(0.25) {
+	if c.NVals >= 2 && r.Chance(0.35) {
 		c.Flags["jail_bias"] = 1
 		c.Flags["p_absent"] = 75
 		c.SlashWindow = 3
@@ -177,6 +177,16 @@ func (p *evmprof) Gen(w *e.World, r *e.RNG) e.Step {
 				{Kind: evmprog.OpCall, Target: fmt.Sprintf("fic:%d", fic), Catch: true, Sub: []*evmprog.Node{{Kind: evmprog.OpSStore, Key: k, Val: cur}, {Kind: []int{evmprog.OpRevert, evmprog.OpInvalid}[r.Intn(2)]}}},
 			}
 			pr.Nodes = append(pat, pr.Nodes...)
+		}
+		if lg, ok := w.Ext["evm_last_grant"].([2]int); ok && f["no_precompile"] != 1 && len(w.Vals) >= 2 && r.Chance(0.12) {
+			// the grantee contract moves a little of the granter's stake around (partial
+			// spends keep the grant alive: its limit and expiry must survive correctly)
+			signer, fic = lg[0], lg[1]
+			pr.FIC = fic
+			src := signer % len(w.Vals)
+			m := []string{"redelegate", "undelegate", "delegate"}[r.Intn(3)]
+			raw, _ := json.Marshal(&PCall{PC: "staking", M: m, Who: fmt.Sprintf("acct:%d", signer), Val: src, Val2: (src + 1) % len(w.Vals), Amt: fmt.Sprint(r.Range(1, 1_000_000))})
+			pr.Nodes = append([]*evmprog.Node{{Kind: evmprog.OpCall, Target: "pre:staking", Catch: true, Call: raw}}, pr.Nodes...)
 		}
 		if f["no_precompile"] != 1 && r.Chance(0.08) {
 			// look at a staking pool, delegate through the precompile, then pay the pool a little
